@@ -1007,6 +1007,24 @@ func terminates(stmts []ast.Stmt) bool {
 	return false
 }
 
+// hasReturn: a return statement anywhere in the statements (an `if` with such an arm cannot be merged through a tuple:
+// the rest of the block is duplicated into both arms)
+func hasReturn(list []ast.Stmt) bool {
+	found := false
+	for _, s := range list {
+		ast.Inspect(s, func(n ast.Node) bool {
+			switch n.(type) {
+			case *ast.ReturnStmt:
+				found = true
+			case *ast.FuncLit:
+				return false
+			}
+			return !found
+		})
+	}
+	return found
+}
+
 func (t *tr) zero(T types.Type, n ast.Node) string {
 	y, ok := t.tyOf(T)
 	if !ok {
@@ -1111,7 +1129,7 @@ func (t *tr) stmts(list []ast.Stmt, tail func() string, results []string) string
 		default:
 			el = []ast.Stmt{e}
 		}
-		if terminates(x.Body.List) || terminates(el) || t.hasOpt(x.Body.List) || t.hasOpt(el) {
+		if terminates(x.Body.List) || terminates(el) || hasReturn(x.Body.List) || hasReturn(el) || t.hasOpt(x.Body.List) || t.hasOpt(el) {
 			out := t.pad() + "if " + c + " then\n"
 			t.indent++
 			out += t.stmts(append(append([]ast.Stmt{}, x.Body.List...), rest...), tail, results)
